@@ -151,6 +151,27 @@ def ext_sorted(e, args, kw, node, st):
         from pyvc.values import VDict
         st.ghost["SORTED_POS"] = VDict(xs.kshape, ("int",), xs.mem, posof, None, None)
         return out
+    if isinstance(xs, VList) and xs.elems is not None and xs.eshape == ("tuple", (("ref", "Residue3D"), ("ref", "Residue3D"), ("enum", "LeontisWesthof"))):
+        n = to_z3(xs.length)
+        out = fresh(("list", xs.eshape), uid("sorted"))
+        A = z3.ArraySort(z3.IntSort(), z3.IntSort())
+        pi, pinv = z3.Const(uid("sorted.pi"), A), z3.Const(uid("sorted.pinv"), A)
+        st.assume(to_z3(out.length) == n)
+        same = z3.And(*[a_ == b_ for a_, b_ in zip(leaves(sel(out.elems, q)), leaves(sel(xs.elems, pi[q])))])
+        st.assume(z3.ForAll([q], z3.Implies(z3.And(q >= 0, q < n), z3.And(pi[q] >= 0, pi[q] < n, pinv[pi[q]] == q, same)),
+                            patterns=[pi[q], to_z3(sel(out.elems, q).items[0].ident)]))
+        st.assume(z3.ForAll([q], z3.Implies(z3.And(q >= 0, q < n), z3.And(pinv[q] >= 0, pinv[q] < n, pi[pinv[q]] == q)),
+                            patterns=[pinv[q], to_z3(sel(xs.elems, q).items[0].ident)]))
+        oq, ow = sel(out.elems, q).items, sel(out.elems, w).items
+        rlt = e.ufuns["rlt"]
+        idn = lambda r_: to_z3(r_.ident)
+        st.assume(z3.ForAll([q, w], z3.Implies(z3.And(q >= 0, q < w, w < n),
+                                               z3.And(z3.Not(rlt(idn(ow[0]), idn(oq[0]))),
+                                                      z3.Implies(idn(ow[0]) == idn(oq[0]), z3.Not(rlt(idn(ow[1]), idn(oq[1])))))),
+                            patterns=[z3.MultiPattern(idn(oq[0]), idn(ow[0]))]))
+        st.ghost["SORT_PI"] = VList(n, pi, ("int",))
+        st.ghost["SORT_PINV"] = VList(n, pinv, ("int",))
+        return out
     raise Unsupported("sorted() of this value has no assumed contract here")
 
 
@@ -607,6 +628,48 @@ class find_pairs_table(_FindPairsBase):
                            2: "distinct-rows-have-distinct-coordinates"}
 
 
+# ---- PHASE 0, completeness half: every listed atom that is present in a residue of the model has a row
+@spec
+def wants_row(S, model, b, n):
+    return 0 <= b and b < len(S) and in_model(S[b], model) and (is_acc(S[b], n) or is_don(S[b], n)) and first_idx(S[b], n) >= 0
+
+
+@spec
+def has_row(GA, GN, ROWOF, b, n):
+    return 0 <= ROWOF[b, n] and ROWOF[b, n] < len(GA) and GA[ROWOF[b, n]] == b and GN[ROWOF[b, n]] == n
+
+
+_TC_LEN = "0 <= len(coordinates) and len(GA) == len(coordinates) and len(GN) == len(coordinates)"
+_TC_DONE = (f"forall(lambda b, n: implies(b < a and wants_row({_S}, model, b, n), has_row(GA, GN, ROWOF, b, n)), sorts={{'n': 'str'}})")
+_TC_CUR = f"forall(lambda q: implies(0 <= q and q < kk and first_idx({_S}[a], ORD[q]) >= 0, has_row(GA, GN, ROWOF, a, ORD[q])))"
+_TC_LAB = {0: "lengths", 1: "every-listed-present-atom-of-the-processed-residues-has-a-row", 2: "names-visited-so-far-have-their-rows"}
+
+
+class find_pairs_table_complete(_FindPairsBase):
+    """Ghost state: GA / GN as in find_pairs@table; ROWOF[(b, n)] = the row made for atom name n of residue b."""
+    stop_before = "kdtree = KDTree("
+    raises = []
+    loops = {
+        0: {"index": "a", "labels": _TC_LAB, "inv": [_TC_LEN, _TC_DONE]},
+        1: {"index": "kk", "elems": "ORD", "labels": _TC_LAB, "inv": [_TC_LEN, _TC_DONE, _TC_CUR]},
+    }
+    ghost = [
+        {"when": "after", "at": "coordinates = []", "label": "ghost-init",
+         "do": ["let GA = empty('list[int]')", "let GN = empty('list[str]')", "let ROWOF = empty('dict[tuple[int,str],int]')"]},
+        {"when": "before", "at": "for atom_name in", "label": "code-tables-equal-pinned-tables",
+         "do": ["assert forall(lambda n: (n in acceptors) == is_acc(residue, n), sorts={'n': 'str'})",
+                "assert forall(lambda n: (n in donors) == is_don(residue, n), sorts={'n': 'str'})"]},
+        {"when": "after", "at": "for atom_name in", "label": "every-listed-name-is-visited",
+         "do": ["assert forall(lambda n: implies(n in acceptors or n in donors, exists(lambda q: 0 <= q and q < len(ORD) and ORD[q] == n)), sorts={'n': 'str'})"]},
+        {"when": "after", "at": "coordinates.append(", "label": "record-row",
+         "do": ["let ROWOF = dstore(ROWOF, (a, atom_name), len(GA))", "let GA = snoc(GA, a)", "let GN = snoc(GN, atom_name)"]},
+    ]
+    stop_ensures = [
+        f"len(GA) == len(coordinates) and len(GN) == len(coordinates) and forall(lambda b, n: implies(wants_row({_S}, model, b, n), has_row(GA, GN, ROWOF, b, n)), sorts={{'n': 'str'}})",
+    ]
+    stop_ensures_labels = {0: "every-listed-atom-present-in-a-residue-of-the-model-has-a-row"}
+
+
 # ---------------------------------------------------------------------------------------------------------------------
 # PHASE 3 (contact classification loop over the sorted KD-tree pair set)
 # ---------------------------------------------------------------------------------------------------------------------
@@ -758,8 +821,7 @@ class find_pairs_contacts(_FindPairsBase):
 def bb_contact(S, GA, GN, coordinates, d, c, oxygens):
     """row d is a base donor atom (a donor name of its base that is not also an acceptor name), row c an oxygen of `oxygens`, the
     two atoms are within D_HB and the library's same-residue test fails on them"""
-    return (((0 <= d and d < c and c < len(coordinates)) or (0 <= c and c < d and d < len(coordinates)))
-            and sqd(coordinates[d], coordinates[c]) <= D_HB * D_HB
+    return ((near(coordinates, d, c) or near(coordinates, c, d))
             and is_don(S[GA[d]], GN[d]) and not is_acc(S[GA[d]], GN[d]) and GN[c] in oxygens
             and not same_res_id(ratom(S, GA, GN, d), ratom(S, GA, GN, c)))
 
@@ -814,12 +876,7 @@ class find_pairs_bph(_FindPairsBase):
         {"when": "after", "at": "donor_residue, acceptor_residue = (residue_i, residue_j)", "label": "donor-is-row-i", "do": ["let DROW = i", "let CROW = j"]},
         {"when": "after", "at": "donor_residue, acceptor_residue = (residue_j, residue_i)", "label": "donor-is-row-j", "do": ["let DROW = j", "let CROW = i"]},
         {"when": "after", "at": "base_phosphate_pairs.append(", "label": "a-recorded-base-phosphate-contact",
-         "do": [f"assert ((0 <= DROW and DROW < CROW and CROW < len(coordinates)) or (0 <= CROW and CROW < DROW and DROW < len(coordinates)))",
-                f"assert sqd(coordinates[DROW], coordinates[CROW]) <= D_HB * D_HB",
-                f"assert is_don({_S}[GA[DROW]], GN[DROW]) and not is_acc({_S}[GA[DROW]], GN[DROW])",
-                f"assert GN[CROW] in PHOSPHATE_OX",
-                f"assert not same_res_id(ratom({_TBL}, DROW), ratom({_TBL}, CROW))",
-                f"assert bb_contact({_TBL}, coordinates, {_D_ROW}, {_C_ROW}, PHOSPHATE_OX)",
+         "do": [f"assert bb_contact({_TBL}, coordinates, {_D_ROW}, {_C_ROW}, PHOSPHATE_OX)",
                 "let UK = dstore(dstore(UK, atom_i, 0), atom_j, 0)", "let UB = dstore(dstore(UB, atom_i, len(PD)), atom_j, len(PD))",
                 f"let PD = snoc(PD, {_D_ROW})", f"let PC = snoc(PC, {_C_ROW})"]},
         {"when": "after", "at": "base_ribose_pairs.append(", "label": "a-recorded-base-ribose-contact",
@@ -842,6 +899,110 @@ class find_pairs_bph(_FindPairsBase):
                            4: "no-atom-in-a-base-phosphate-and-a-base-ribose-contact"}
 
 
+# ---------------------------------------------------------------------------------------------------------------------
+# PHASE 5 (output assembly): base_pairs is sorted(base_base_pairs) turned into BasePair records
+# ---------------------------------------------------------------------------------------------------------------------
+class detect_saenger_ord:
+    """detect_saenger as proved in contracts/annotator_c.py (C11: detect_saenger_c, enum parameter modelled as the record (name, value)),
+    re-stated for the engine's ordinal encoding of an enum member read back from a list: the k-th member of LeontisWesthof has the
+    value LW_NAMES[k] (name == value for all 18 members).  The result is the NAME of the Saenger member.  ASSUMED at the call site in
+    find_pairs (listed in props/C03.py); its body cannot be verified under the ordinal encoding (`lw.value`)."""
+    target = "detect_saenger"
+    params = {"residue_i": "Residue3D", "residue_j": "Residue3D", "lw": "enum[LeontisWesthof]"}
+    requires = ["0 <= lw and lw < len(LW_NAMES)"]
+    returns = "opt[str]"
+    raises = []
+    modifies = []
+    ensures = ["result == saenger_of(SAENGER_PINNED, residue_i.one_letter_name, residue_j.one_letter_name, LW_NAMES[lw])"]
+
+
+@spec
+def bp_of(bp, t):
+    """the BasePair record bp is built from the triple t = (residue_i, residue_j, lw)"""
+    return (bp.nt1.label == t[0].label and bp.nt1.auth == t[0].auth and bp.nt2.label == t[1].label and bp.nt2.auth == t[1].auth and bp.lw == t[2]
+            and bp.saenger == saenger_of(SAENGER_PINNED, t[0].one_letter_name, t[1].one_letter_name, LW_NAMES[t[2]]))
+
+
+class find_pairs_output(_FindPairsBase):
+    """Ghost state: SP = sorted(base_base_pairs) (the list the loop iterates); SORT_PI / SORT_PINV the permutation of the assumed
+    contract of sorted()."""
+    stop_before = "bph_map = merge_and_clean_bph_br("
+    raises = ANY_EXC
+    callee_variants = {"angle_between_vectors": "total", "detect_saenger": "ord"}
+    loops = {0: [], 1: [], 2: [], 3: [], 4: [], 5: [], 6: [], 7: [],
+             8: {"index": "m", "labels": {0: "class-ordinals-are-members"},
+                 "inv": ["forall(lambda k: implies(0 <= k and k < len(base_base_pairs), 0 <= base_base_pairs[k][2] and base_base_pairs[k][2] < len(LW_NAMES)))"]},
+             9: {"index": "q9", "iter": "SP", "labels": {0: "length", 1: "records-built-from-the-sorted-triples"},
+                 "inv": ["len(base_pairs) == q9",
+                         "forall(lambda q: implies(0 <= q and q < q9, bp_of(base_pairs[q], SP[q])))"]}}
+    ghost = [
+        {"when": "before", "at": "base_pairs.append(", "label": "class-ordinal-is-a-member",
+         "do": ["assert 0 <= SORT_PI[q9] and SORT_PI[q9] < len(base_base_pairs) and lw == base_base_pairs[SORT_PI[q9]][2]"]},
+    ]
+    stop_ensures = [
+        "len(base_pairs) == len(base_base_pairs) and len(SP) == len(base_base_pairs) "
+        "and forall(lambda q: implies(0 <= q and q < len(base_pairs), bp_of(base_pairs[q], SP[q])))",
+        # SP is a rearrangement of base_base_pairs (bijection SORT_PI with inverse SORT_PINV) ...
+        "forall(lambda q: implies(0 <= q and q < len(SP), 0 <= SORT_PI[q] and SORT_PI[q] < len(SP) and SORT_PINV[SORT_PI[q]] == q "
+        "and SP[q][0] == base_base_pairs[SORT_PI[q]][0] and SP[q][1] == base_base_pairs[SORT_PI[q]][1] and SP[q][2] == base_base_pairs[SORT_PI[q]][2]))",
+        "forall(lambda k: implies(0 <= k and k < len(SP), 0 <= SORT_PINV[k] and SORT_PINV[k] < len(SP) and SORT_PI[SORT_PINV[k]] == k))",
+        # ... ordered by residue order of the first, then of the second residue
+        "forall(lambda q, w: implies(0 <= q and q < w and w < len(SP), not res_lt(SP[w][0], SP[q][0]) and implies(SP[w][0] == SP[q][0], not res_lt(SP[w][1], SP[q][1]))))",
+    ]
+    stop_ensures_labels = {0: "every-BasePair-record-is-built-from-its-triple(ids,class,Saenger-of-pinned-table)",
+                           1: "output-is-a-rearrangement-of-the-reported-triples", 2: "no-reported-triple-is-lost",
+                           3: "output-sorted-by-residue-order"}
+
+
+# ---------------------------------------------------------------------------------------------------------------------
+# NO EXCEPTION up to the base-pair list (the phase variants above leave exceptions to this variant)
+# ---------------------------------------------------------------------------------------------------------------------
+@spec
+def lab_alphabet(L):
+    return (L[2] == 'c' or L[2] == 't') and (L[3] == 'W' or L[3] == 'H' or L[3] == 'S') and (L[4] == 'W' or L[4] == 'H' or L[4] == 'S')
+
+
+_ALPH = "forall(lambda t: implies(0 <= t and t < len(labels), lab_alphabet(labels[t])))"
+_AL = {0: "labels-spell-class-names"}
+
+
+class find_pairs_safe(_FindPairsBase):
+    """raises = []: every exception the statements up to `bph_map = ...` could raise (IndexError / KeyError of the table and dictionary
+    lookups, ZeroDivisionError of the angle computation, KeyError of LeontisWesthof[...], AttributeError / TypeError on None) is an
+    obligation here."""
+    stop_before = "bph_map = merge_and_clean_bph_br("
+    requires = [REQ_DISTINCT, REQ_IDS, REQ_COORDS, REQ_NORMAL]
+    raises = []
+    callee_variants = {"angle_between_vectors": "total", "detect_saenger": "ord"}
+    loops = {
+        0: {"index": "a", "labels": _T_LAB, "inv": [_T_LEN, _T_ROWS0, _T_MAPS, _T_ORDER, _T_DISTXYZ]},
+        1: {"index": "kk", "elems": "ORD", "labels": _T_LAB, "inv": [_T_LEN, _T_ROWS1, _T_MAPS, _T_ORDER, _T_DISTXYZ]},
+        2: {"index": "w", "iter": "EN", "inv": []},
+        3: {"inv": [_ALPH], "labels": _AL}, 4: {"inv": [_ALPH], "labels": _AL}, 5: {"inv": [_ALPH], "labels": _AL},
+        6: {"inv": [_ALPH], "labels": _AL}, 7: {"inv": [_ALPH], "labels": _AL},
+        8: {"index": "m", "iter": "MC", "labels": {0: "class-ordinals-are-members"},
+            "inv": ["forall(lambda k: implies(0 <= k and k < len(base_base_pairs), 0 <= base_base_pairs[k][2] and base_base_pairs[k][2] < len(LW_NAMES)))"]},
+        9: {"index": "q9", "iter": "SP", "inv": ["len(base_pairs) == q9"]},
+    }
+    ghost = list(_TABLE_GHOST) + [
+        {"when": "before", "at": "type_i = coordinates_type_map", "label": "pair-of-step",
+         "do": [f"assert 0 <= i and i < j and j < len(coordinates)", f"assert {_ROW('i')} and {_ROW('j')}"]},
+        {"when": "after", "at": "atom_j = coordinates_atom_map", "label": "atoms-of-step",
+         "do": [f"assert atom_i == ratom({_TBL}, i) and atom_j == ratom({_TBL}, j)"]},
+        {"when": "after", "at": "vector = ", "label": "contact-vector-is-not-zero",
+         "do": ["assert vector[0] != 0 or vector[1] != 0 or vector[2] != 0", "use sumsq_pos(vector[0], vector[1], vector[2])"]},
+        {"when": "before", "at": "for edge_i in edges_i", "label": "edge-letters",
+         "do": ["assert forall(lambda a: implies(0 <= a and a < len(edges_i), char(edges_i, a) == 'W' or char(edges_i, a) == 'H' or char(edges_i, a) == 'S'))",
+                "assert forall(lambda a: implies(0 <= a and a < len(edges_j), char(edges_j, a) == 'W' or char(edges_j, a) == 'H' or char(edges_j, a) == 'S'))"]},
+        {"when": "after", "at": "residue_i, residue_j, cis_trans, edge_i, edge_j = interaction", "label": "counted-label-spells-a-class-name",
+         "do": ["assert 0 <= CNT_POS[m] and CNT_POS[m] < len(labels) and same_label(labels[CNT_POS[m]], interaction)", "assert lab_alphabet(interaction)"]},
+        {"when": "before", "at": "base_pairs.append(", "label": "class-ordinal-is-a-member",
+         "do": ["assert 0 <= SORT_PI[q9] and SORT_PI[q9] < len(base_base_pairs) and lw == base_base_pairs[SORT_PI[q9]][2]"]},
+    ]
+    stop_ensures = ["len(base_pairs) == len(base_base_pairs)"]
+    stop_ensures_labels = {0: "reached-without-exception"}
+
+
 CONTRACTS = {
     "Residue3D.find_atom": AC.find_atom_c,
     "Residue3D.__lt__": AC.res_lt_c,
@@ -851,8 +1012,13 @@ CONTRACTS = {
     "detect_cis_trans": detect_cis_trans_c,
     "find_pairs@greedy": find_pairs_greedy,
     "find_pairs@table": find_pairs_table,
+    "find_pairs@table_complete": find_pairs_table_complete,
     "find_pairs@contacts": find_pairs_contacts,
     "find_pairs@bph": find_pairs_bph,
     "find_pairs@labels": find_pairs_labels,
+    "find_pairs@output": find_pairs_output,
+    "find_pairs@safe": find_pairs_safe,
+    "detect_saenger": AC.detect_saenger_c,
+    "detect_saenger@ord": detect_saenger_ord,
     "find_pairs@labels_complete": find_pairs_labels_complete,
 }
